@@ -337,3 +337,319 @@ Proof.
       pose proof (Hup k c Hk Hc) as Hp. unfold p in Hp. rewrite Hx in Hp.
       destruct (key_lt_total (fst x) kk (proj1 Wx) Wk) as (b & Eb). rewrite Eb in Hp. subst b. exact Eb.
 Qed.
+
+(* ------------------------------------------------ MATCH(v, a, 0): first hit *)
+(* the obvious definition: first position (counted from i) whose cell
+   satisfies p, else #N/A *)
+Fixpoint find_first (p : pyval -> res bool) (l : list pyval) (i : Z) : res pyval :=
+  match l with
+  | [] => Ok NA
+  | c :: l' => b <- p c ;; if b then Ok (VInt i) else find_first p l' (i + 1)
+  end.
+
+(* "cell c equals the lookup value": never an error cell, type-strict, then
+   the equality test t on keys (case-insensitive: keys are lower-cased; a
+   wildcard pattern for text) *)
+Definition matches0 (ty : Z) (t : key -> res bool) (c : pyval) : res bool :=
+  e <- in_error_codes c ;;
+  if e then Ok false else
+  k <- abs_key c ;;
+  if fst k =? ty then t k else Ok false.
+
+Lemma scan0_find_first t ty l : forall i,
+  scan0 t ty l i = find_first (matches0 ty t) l i.
+Proof.
+  induction l as [|c l IH]; intros i; [reflexivity|].
+  cbn [scan0 find_first]. unfold matches0 at 1.
+  destruct (in_error_codes c) as [[|]|e]; cbn [bind]; auto.
+  destruct (abs_key c) as [k|e]; cbn [bind]; auto.
+  destruct (fst k =? ty); cbn [bind]; auto.
+  destruct (t k) as [[|]|e]; cbn [bind]; auto.
+Qed.
+
+Lemma match0_is_find_first v a :
+  match_ v (VTuple a) (VInt 0)
+  = (x <- lv_key v ;; t <- test0 (fst x) ;; find_first (matches0 (fst (fst x)) t) a 1).
+Proof.
+  unfold match_. cbn [seq_items bind].
+  destruct (lv_key v) as [x|e]; cbn [bind]; [|reflexivity].
+  replace (py_eq (VInt 0) (VInt 1)) with false by reflexivity.
+  replace (py_eq (VInt 0) (VInt 0)) with true by reflexivity.
+  destruct (test0 (fst x)) as [t|e]; cbn [bind]; [|reflexivity].
+  apply scan0_find_first.
+Qed.
+
+(* what find_first returns *)
+Lemma find_first_spec p l : forall i r, find_first p l i = Ok r ->
+  (r = NA /\ forall c, In c l -> p c = Ok false)
+  \/ (exists n c, r = VInt (i + Z.of_nat n) /\ nth_error l n = Some c /\ p c = Ok true
+                  /\ forall m c', (m < n)%nat -> nth_error l m = Some c' -> p c' = Ok false).
+Proof.
+  induction l as [|c l IH]; intros i r; cbn [find_first].
+  - intros H. injection H as <-. left. split; [reflexivity|]. intros c [].
+  - destruct (p c) as [[|]|e] eqn:Ep; cbn [bind]; [| |discriminate].
+    + intros H. injection H as <-. right. exists 0%nat, c.
+      rewrite Z.add_0_r. repeat split; auto. intros m c' Hm. lia.
+    + intros H. destruct (IH _ _ H) as [[-> Hall]|(n & c0 & -> & Hn & Hp & Hbefore)].
+      * left. split; [reflexivity|]. intros c' [<-|Hin]; auto.
+      * right. exists (S n), c0. split; [f_equal; lia|]. split; [exact Hn|]. split; [exact Hp|].
+        intros [|m] c' Hm; cbn [nth_error].
+        -- intros H'. injection H' as <-. exact Ep.
+        -- apply Hbefore. lia.
+Qed.
+
+(* the equality test: plain key equality unless the (lower-cased) text has a
+   wildcard; then the glob *)
+Lemma test0_plain xk : (forall p, xk = (1, VStr p) -> existsb is_wild p = false) ->
+  test0 xk = Ok (fun k => Ok (key_eq k xk)).
+Proof.
+  intros H. unfold test0. destruct xk as [t v].
+  destruct t as [|[q|q|]|q]; try reflexivity. destruct v; try reflexivity.
+  rewrite (H s eq_refl). reflexivity.
+Qed.
+Lemma test0_wild p : existsb is_wild p = true -> existsb regex_meta p = false ->
+  test0 (1, VStr p) = Ok (fun k => match snd k with VStr s => Ok (glob p s) | _ => Raise Unmodelled end).
+Proof. intros H1 H2. unfold test0. rewrite H1, H2. reflexivity. Qed.
+
+(* ----------------------------------------- the result of _match is a position *)
+Definition is_pos (n : Z) (m : pyval) : Prop := exists i, m = VInt i /\ 1 <= i <= n.
+
+Lemma scan0_range t ty l : forall i m, scan0 t ty l i = Ok m ->
+  m = NA \/ exists j, m = VInt j /\ i <= j < i + zlen l.
+Proof.
+  induction l as [|c l IH]; intros i m; cbn [scan0].
+  - intros H. injection H as <-. auto.
+  - assert (Hrec : scan0 t ty l (i + 1) = Ok m ->
+              m = NA \/ exists j, m = VInt j /\ i <= j < i + zlen (c :: l)).
+    { intros H. destruct (IH _ _ H) as [->|(j & -> & Hj)]; [auto|].
+      right. exists j. split; [reflexivity|]. unfold zlen in *. cbn [length]. lia. }
+    destruct (in_error_codes c) as [[|]|e]; cbn [bind]; auto; try discriminate.
+    destruct (abs_key c) as [k|e]; cbn [bind]; auto; try discriminate.
+    destruct (fst k =? ty); cbn [bind]; auto.
+    destruct (t k) as [[|]|e]; cbn [bind]; auto; try discriminate.
+    intros H. injection H as <-. right. exists i. split; [reflexivity|].
+    unfold zlen. cbn [length]. lia.
+Qed.
+
+Lemma scan_m1_range xk l : forall i last m, scan_m1 xk l i last = Ok m ->
+  m = last \/ exists j, m = VInt j /\ i <= j < i + zlen l.
+Proof.
+  induction l as [|c l IH]; intros i last m; cbn [scan_m1].
+  - intros H. injection H as <-. auto.
+  - assert (Hrec : forall last', (last' = last \/ last' = VInt i) ->
+              scan_m1 xk l (i + 1) last' = Ok m ->
+              m = last \/ exists j, m = VInt j /\ i <= j < i + zlen (c :: l)).
+    { intros last' Hl H. destruct (IH _ _ _ H) as [->|(j & -> & Hj)].
+      - destruct Hl as [->| ->]; [auto|]. right. exists i. split; [reflexivity|].
+        unfold zlen. cbn [length]. lia.
+      - right. exists j. split; [reflexivity|]. unfold zlen in *. cbn [length]. lia. }
+    destruct (in_error_codes c) as [[|]|e]; cbn [bind]; try discriminate; try (apply Hrec; auto; fail).
+    destruct (abs_key c) as [k|e]; cbn [bind]; try discriminate.
+    destruct (fst k =? fst xk); cbn [bind]; try (apply Hrec; auto; fail).
+    destruct (key_lt true k xk) as [[|]|e]; cbn [bind]; try discriminate.
+    + intros H. injection H as <-. auto.
+    + destruct (key_eq k xk); try (apply Hrec; auto; fail).
+      intros H. injection H as <-. right. exists i. split; [reflexivity|].
+      unfold zlen. cbn [length]. lia.
+Qed.
+
+Lemma match1_range x a m : match1 x a = Ok m -> m = NA \/ is_pos (zlen a) m.
+Proof.
+  unfold match1.
+  destruct (bisect_right _ a _ _) as [r|e]; cbn [bind]; [|discriminate].
+  destruct (backoff _ _) as [[|j]|e]; cbn [bind]; [| |discriminate].
+  - intros H. injection H as <-. auto.
+  - destruct (nth_error a j) as [c|] eqn:E; [|discriminate].
+    assert (Hj : (j < length a)%nat) by (apply nth_error_Some; congruence).
+    assert (Hpos : is_pos (zlen a) (VInt (Z.of_nat (S j)))).
+    { exists (Z.of_nat (S j)). split; [reflexivity|]. unfold zlen. lia. }
+    destruct c; intros H; injection H as <-; auto.
+Qed.
+
+(* whatever the match type: #N/A or a position inside the vector *)
+Theorem match_range v arr mt a m :
+  seq_items arr = Ok a -> match_ v arr mt = Ok m -> m = NA \/ is_pos (zlen a) m.
+Proof.
+  intros Ha. unfold match_. rewrite Ha. cbn [bind].
+  destruct (lv_key v) as [x|e]; cbn [bind]; [|discriminate].
+  destruct (py_eq mt (VInt 1)); [apply match1_range|].
+  destruct (py_eq mt (VInt 0)).
+  - destruct (test0 (fst x)) as [t|e]; cbn [bind]; [|discriminate].
+    intros H. destruct (scan0_range _ _ _ _ _ H) as [->|(j & -> & Hj)]; [auto|].
+    right. exists j. split; [reflexivity|]. lia.
+  - intros H. destruct (scan_m1_range _ _ _ _ _ H) as [->|(j & -> & Hj)]; [auto|].
+    right. exists j. split; [reflexivity|]. lia.
+Qed.
+
+(* --------------------------------------------- tables: VLOOKUP / HLOOKUP / INDEX *)
+(* a rectangular table: every row is a tuple of w cells *)
+Definition rect (w : Z) (rows : list pyval) : Prop :=
+  Forall (fun row => exists cells, row = VTuple cells /\ zlen cells = w) rows.
+
+Definition cells_of (row : pyval) : list pyval :=
+  match row with VTuple l | VList l => l | _ => [] end.
+Definition col_of (j : nat) (rows : list pyval) : list pyval :=
+  map (fun row => nth j (cells_of row) VNone) rows.
+Definition transpose (w : nat) (rows : list pyval) : list pyval :=
+  map (fun j => VTuple (col_of j rows)) (seq 0 w).
+
+Lemma list_like_tuple l : excelutil.f_list_like (VTuple l) = Ok (VBool true).
+Proof. reflexivity. Qed.
+
+Lemma index_nth_nonneg {A} (l : list A) z : 0 <= z < zlen l ->
+  index_nth l z = nth_error l (Z.to_nat z).
+Proof.
+  intros H. unfold index_nth.
+  replace (z <? 0) with false by (symmetry; apply Z.ltb_ge; lia).
+  replace (z <? 0) with false by (symmetry; apply Z.ltb_ge; lia).
+  replace (zlen l <=? z) with false by (symmetry; apply Z.leb_gt; lia). reflexivity.
+Qed.
+
+Lemma getitem_nth l z : 0 <= z < zlen l ->
+  py_getitem (VTuple l) (VInt z) = Ok (nth (Z.to_nat z) l VNone).
+Proof.
+  intros H. cbn [py_getitem as_index]. rewrite index_nth_nonneg by exact H.
+  destruct (nth_error l (Z.to_nat z)) as [c|] eqn:E.
+  - rewrite (nth_error_nth _ _ _ E). reflexivity.
+  - apply nth_error_None in E. unfold zlen in H. lia.
+Qed.
+
+Lemma rect_nth w rows n : rect w rows -> (n < length rows)%nat ->
+  exists cells, nth n rows VNone = VTuple cells /\ zlen cells = w.
+Proof.
+  intros Hr Hn. unfold rect in Hr. rewrite Forall_forall in Hr.
+  apply Hr. apply nth_In. exact Hn.
+Qed.
+
+(* array[i-1][k-1] inside a rectangular table *)
+Lemma array_data_cell w rows i k : rect w rows -> 1 <= i <= zlen rows -> 1 <= k <= w ->
+  array_data (VTuple rows) (VInt (i - 1)) (VInt (k - 1))
+  = Ok (nth (Z.to_nat (k - 1)) (cells_of (nth (Z.to_nat (i - 1)) rows VNone)) VNone).
+Proof.
+  intros Hr Hi Hk. unfold array_data. rewrite getitem_nth by lia. cbn [bind].
+  destruct (rect_nth w rows (Z.to_nat (i - 1)) Hr) as (cells & -> & Hw); [unfold zlen in Hi; lia|].
+  rewrite getitem_nth by lia. reflexivity.
+Qed.
+
+(* INDEX(t, i, k) = t[i-1][k-1] inside the table *)
+Lemma index_cell w rows i k : rect w rows -> 1 <= i <= zlen rows -> 1 <= k <= w ->
+  index_ (VTuple rows) (VInt i) (VInt k)
+  = array_data (VTuple rows) (VInt (i - 1)) (VInt (k - 1)).
+Proof.
+  intros Hr Hi Hk. rewrite (array_data_cell w rows i k Hr Hi Hk).
+  unfold index_. rewrite list_like_tuple. cbn [cond_of bind py_truthy negb].
+  assert (Hrows : (0 < length rows)%nat) by (unfold zlen in Hi; lia).
+  rewrite getitem_nth by lia.
+  destruct (rect_nth w rows 0 Hr Hrows) as (c0 & E0 & Hw0).
+  change (Z.to_nat 0) with 0%nat. rewrite E0. cbn [bind]. rewrite list_like_tuple.
+  cbn [cond_of bind py_truthy negb]. rewrite getitem_nth by lia. cbn [bind].
+  unfold index_body. cbn [py_truthy].
+  replace (i =? 0) with false by (symmetry; apply Z.eqb_neq; lia).
+  replace (k =? 0) with false by (symmetry; apply Z.eqb_neq; lia).
+  cbn [negb andb b_or py_lt scalar_lt as_num bind].
+  replace (i <? 0) with false by (symmetry; apply Z.ltb_ge; lia).
+  replace (k <? 0) with false by (symmetry; apply Z.ltb_ge; lia).
+  unfold py_sub, Py.arith. cbn [as_num bind].
+  rewrite (array_data_cell w rows i k Hr Hi Hk). reflexivity.
+Qed.
+
+(* INDEX bounds, any table: a negative index is #VALUE!, an index beyond a
+   rectangular table is #REF! *)
+Lemma index_negative w rows i k : rect w rows -> rows <> [] -> 1 <= w ->
+  i <> 0 -> k <> 0 -> (i < 0 \/ k < 0) ->
+  index_ (VTuple rows) (VInt i) (VInt k) = Ok VALUE.
+Proof.
+  intros Hr Hne Hw Hi Hk Hneg. unfold index_. rewrite list_like_tuple.
+  cbn [cond_of bind py_truthy negb].
+  assert (Hrows : (0 < length rows)%nat) by (destruct rows; [congruence|cbn; lia]).
+  rewrite getitem_nth by (unfold zlen; lia).
+  destruct (rect_nth w rows 0 Hr Hrows) as (c0 & E0 & Hw0).
+  change (Z.to_nat 0) with 0%nat. rewrite E0. cbn [bind]. rewrite list_like_tuple.
+  cbn [cond_of bind py_truthy negb]. rewrite getitem_nth by lia. cbn [bind].
+  unfold index_body. cbn [py_truthy].
+  replace (i =? 0) with false by (symmetry; apply Z.eqb_neq; lia).
+  replace (k =? 0) with false by (symmetry; apply Z.eqb_neq; lia).
+  cbn [negb andb b_or py_lt scalar_lt as_num bind].
+  destruct (Z.ltb_spec i 0); cbn [bind try_except]; [reflexivity|].
+  replace (k <? 0) with true by (symmetry; apply Z.ltb_lt; lia). reflexivity.
+Qed.
+
+Lemma getitem_beyond l z : zlen l <= z -> py_getitem (VTuple l) (VInt z) = Raise IndexError.
+Proof.
+  intros H. cbn [py_getitem as_index]. unfold index_nth.
+  assert (0 <= zlen l) by (unfold zlen; lia).
+  replace (z <? 0) with false by (symmetry; apply Z.ltb_ge; lia).
+  replace (z <? 0) with false by (symmetry; apply Z.ltb_ge; lia).
+  replace (zlen l <=? z) with true by (symmetry; apply Z.leb_le; lia). reflexivity.
+Qed.
+
+Lemma index_beyond w rows i k : rect w rows -> rows <> [] -> 1 <= w ->
+  1 <= i -> 1 <= k -> (zlen rows < i \/ w < k) ->
+  index_ (VTuple rows) (VInt i) (VInt k) = Ok REF.
+Proof.
+  intros Hr Hne Hw Hi Hk Hb. unfold index_. rewrite list_like_tuple.
+  cbn [cond_of bind py_truthy negb].
+  assert (Hrows : (0 < length rows)%nat) by (destruct rows; [congruence|cbn; lia]).
+  rewrite getitem_nth by (unfold zlen; lia).
+  destruct (rect_nth w rows 0 Hr Hrows) as (c0 & E0 & Hw0).
+  change (Z.to_nat 0) with 0%nat. rewrite E0. cbn [bind]. rewrite list_like_tuple.
+  cbn [cond_of bind py_truthy negb]. rewrite getitem_nth by lia. cbn [bind].
+  unfold index_body. cbn [py_truthy].
+  replace (i =? 0) with false by (symmetry; apply Z.eqb_neq; lia).
+  replace (k =? 0) with false by (symmetry; apply Z.eqb_neq; lia).
+  cbn [negb andb b_or py_lt scalar_lt as_num bind].
+  replace (i <? 0) with false by (symmetry; apply Z.ltb_ge; lia).
+  replace (k <? 0) with false by (symmetry; apply Z.ltb_ge; lia).
+  unfold py_sub, Py.arith. cbn [as_num bind]. unfold array_data.
+  destruct (Z.ltb_spec (zlen rows) i) as [Hbi|Hbi].
+  - rewrite getitem_beyond by lia. reflexivity.
+  - rewrite getitem_nth by lia. cbn [bind].
+    destruct (rect_nth w rows (Z.to_nat (i - 1)) Hr) as (cells & -> & Hwc); [unfold zlen in Hbi; lia|].
+    rewrite getitem_beyond by lia. reflexivity.
+Qed.
+
+(* the first column as the list comprehension of vlookup computes it *)
+Lemma genexp_first_col w rows : rect w rows -> 1 <= w ->
+  genexp (fun v_row => lift2 py_getitem (Ok v_row) (Ok (VInt 0))) (fun _ => Ok true) rows
+  = Ok (col_of 0 rows).
+Proof.
+  intros Hr Hw. induction rows as [|row rows IH]; [reflexivity|].
+  inversion Hr as [|? ? (cells & -> & Hc) Hr']; subst.
+  cbn [genexp bind]. rewrite (IH Hr'). unfold lift2. cbn [bind].
+  rewrite getitem_nth by lia. reflexivity.
+Qed.
+
+Definition is_int (m : pyval) : bool := match m with VInt _ => true | _ => false end.
+
+Lemma na_not_int : py_isinstance NA [TInt] = false.
+Proof. reflexivity. Qed.
+
+(* VLOOKUP bounds *)
+Lemma vlookup_low v rows k r : k <= 0 ->
+  lookup.f_vlookup v (VTuple rows) (VInt k) r = Ok VALUE.
+Proof.
+  intros Hk. unfold lookup.f_vlookup. py_run. rewrite list_like_tuple. py_run.
+  replace (k <=? 0) with true by (symmetry; apply Z.leb_le; lia). reflexivity.
+Qed.
+Lemma hlookup_low v rows k r : k <= 0 ->
+  lookup.f_hlookup v (VTuple rows) (VInt k) r = Ok VALUE.
+Proof.
+  intros Hk. unfold lookup.f_hlookup. py_run. rewrite list_like_tuple. py_run.
+  replace (k <=? 0) with true by (symmetry; apply Z.leb_le; lia). reflexivity.
+Qed.
+Lemma vlookup_high v cells0 rows k r : zlen cells0 < k -> 0 < k ->
+  lookup.f_vlookup v (VTuple (VTuple cells0 :: rows)) (VInt k) r = Ok REF.
+Proof.
+  intros Hk Hk0. unfold lookup.f_vlookup. py_run. rewrite list_like_tuple. py_run.
+  replace (k <=? 0) with false by (symmetry; apply Z.leb_gt; lia). py_run.
+  fold (zlen cells0).
+  replace (zlen cells0 <? k) with true by (symmetry; apply Z.ltb_lt; lia). reflexivity.
+Qed.
+Lemma hlookup_high v rows k r : zlen rows < k -> 0 < k ->
+  lookup.f_hlookup v (VTuple rows) (VInt k) r = Ok REF.
+Proof.
+  intros Hk Hk0. unfold lookup.f_hlookup. py_run. rewrite list_like_tuple. py_run.
+  replace (k <=? 0) with false by (symmetry; apply Z.leb_gt; lia). py_run.
+  fold (zlen rows).
+  replace (zlen rows <? k) with true by (symmetry; apply Z.ltb_lt; lia). reflexivity.
+Qed.
